@@ -389,6 +389,33 @@ func registerIOModels() {
 			c.assume(st, lt("0", r.Typ))
 			return r
 		}}
+	// base64: DecodeString succeeds exactly on the texts valid for that encoding (uninterpreted b64ok_<enc>);
+	// valid padded text has a length that is a multiple of four, and unpadded text of such a length is also
+	// valid padded text (no padding is needed).
+	b64 := func(method string) {
+		libModels["(*base64.Encoding)."+method] = &libModel{desc: "DecodeString on base64.StdEncoding / RawStdEncoding returns a nil error exactly for the texts valid in that encoding (b64ok_std / b64ok_raw; b64ok_std(v) implies len(v)%4 == 0; b64ok_raw(v) with len(v)%4 == 0 implies b64ok_std(v)); other encodings unconstrained; no heap effect",
+			apply: func(c *FnCtx, st *State, in ssa.Instruction, cc *ssa.CallCommon, args []Val) Val {
+				r := c.freshVal(st, cc.Signature().Results(), "b64").(VTuple)
+				enc := ""
+				if u, ok := cc.Args[0].(*ssa.UnOp); ok {
+					if g, ok := u.X.(*ssa.Global); ok && g.Pkg.Pkg.Path() == "encoding/base64" {
+						switch g.Name() {
+						case "StdEncoding":
+							enc = "std"
+						case "RawStdEncoding":
+							enc = "raw"
+						}
+					}
+				}
+				if v, ok := args[1].(VStr); ok && enc != "" {
+					c.eng.needB64 = true
+					errv := r.E[1].(VIface)
+					c.assume(st, eq(eq(errv.Typ, "0"), app("b64ok_"+enc, v.Arr, v.Off, v.Len)))
+				}
+				return r
+			}}
+	}
+	b64("DecodeString")
 	libModels["strings.Split"] = &libModel{
 		desc: "strings.Split(s, sep) with a non-empty separator returns at least one element (a fresh slice; the elements are unconstrained)",
 		apply: func(c *FnCtx, st *State, in ssa.Instruction, cc *ssa.CallCommon, args []Val) Val {
